@@ -43,6 +43,13 @@ rand    `-` or `<seed>:<d,d,…>` raw Int63 draws of math/rand after Seed(seed)
         tokens it accepts. answer `ok <node>>…` (the module and its chain of configured fallbacks: `s<k>`, `wrr[w,…]`,
         `rc[k]`, `qry[hex]`, `hdr[hex]`, `ck[name,secret,max_age ns]`) | `err`
 
+  rp <tokens> <durations> <addresses>
+        the `reverse_proxy` directive of a Caddyfile (upstream arguments, `to`, `lb_policy`, `lb_retries`,
+        `lb_try_duration`, `lb_try_interval`, `max_fails`, `fail_duration`, `unhealthy_request_count`): tokens and
+        durations as for `cf`; addresses = `-` or `tokenhex:dialhex|dialhex,…`: the dial addresses the tokens accepted
+        as upstream addresses stand for. answer `ok ups=<dial,…|-> pol=<chain|-> r=<retries> td=<ns> ti=<ns>
+        p=<max_fails,fail_duration ns,unhealthy_request_count|->` | `err`
+
 answer  `<r>,<r>,… c=<counter|-> a=<availability bits|->`, r = `nil` | `<i>` | `<i>+ck<id>` | `panic:idx` | `panic:nil`;
         `err:provision` if the policy is rejected; `starved` if the draws run out; `bad-op` if malformed.
 -/
@@ -344,7 +351,33 @@ def showCfRes : CfRes → String
   | .err => "err"
   | .fuel => "model-out-of-fuel"
 
+/-- `-` or `tokenhex:dialhex|dialhex,…` (`_` = no address at all) -/
+def parseAddrTable (s : String) : Option (List (Bytes × List Bytes)) :=
+  if s == "-" then some [] else
+  (s.splitOn ",").mapM fun kv =>
+    match kv.splitOn ":" with
+    | [k, v] => do
+      let k ← Hex.decode k
+      let ds ← (if v == "_" then some [] else (v.splitOn "|").mapM Hex.decode)
+      pure (k, ds)
+    | _ => none
+
+def addrOf (tbl : List (Bytes × List Bytes)) (t : Bytes) : Option (List Bytes) := (tbl.find? (·.1 == t)).map (·.2)
+
+def showRp : Option RpCfg → String
+  | none => "err"
+  | some c =>
+    "ok ups=" ++ (if c.ups.isEmpty then "-" else ",".intercalate (c.ups.map Hex.encode))
+      ++ " pol=" ++ (match c.pol with | none => "-" | some p => ">".intercalate (p.map showPNode))
+      ++ " r=" ++ toString c.retries ++ " td=" ++ toString c.tryDur ++ " ti=" ++ toString c.tryInt
+      ++ " p=" ++ (if c.passive then toString c.maxFails ++ "," ++ toString c.failDur ++ "," ++ toString c.urc else "-")
+
 def handle : List String → String
+  | ["rp", toks, durs, addrs] =>
+    match (toks.splitOn ",").mapM parseTok, parseDurTable durs, parseAddrTable addrs with
+    | some toks, some tbl, some atbl =>
+      if toks.length ≤ 64 then showRp (parseReverseProxy (durOf tbl) (addrOf atbl) toks) else "bad-op"
+    | _, _, _ => "bad-op"
   | ["cf", toks, durs] =>
     match (toks.splitOn ",").mapM parseTok, parseDurTable durs with
     | some toks, some tbl => if toks.length ≤ 48 then showCfRes (parseLbPolicy (durOf tbl) toks) else "bad-op"
